@@ -710,3 +710,53 @@ func definitelyStores(rc *core.RC, info *types.Info, st ast.Stmt, dst types.Obje
 	}
 	return storesThrough(info, st, dst) || storesThroughAddr(info, st, dst)
 }
+
+// ---- C02.R5 the ,string option applies to scalars and to one pointer in front of a scalar ----
+
+func c02r5(rc *core.RC) {
+	p := rc.P
+	fd := p.Func("decoder", "isStringTagSupportedType")
+	key := "decoder.isStringTagSupportedType"
+	if fd == nil {
+		rc.Unknown(key, token.NoPos, "not found")
+		return
+	}
+	rc.Touch(key)
+	info := p.Info(fd)
+	// typ is replaced by typ.Elem() under a Ptr test before the kind switch
+	through := false
+	ast.Inspect(fd.Body, func(m ast.Node) bool {
+		ifs, ok := m.(*ast.IfStmt)
+		if !ok || !strings.Contains(core.Src(p.Fset, ifs.Cond), "reflect.Ptr") {
+			return true
+		}
+		ast.Inspect(ifs.Body, func(k ast.Node) bool {
+			if as, ok := k.(*ast.AssignStmt); ok && len(as.Rhs) == 1 && strings.HasSuffix(core.Src(p.Fset, as.Rhs[0]), ".Elem()") {
+				through = true
+			}
+			return true
+		})
+		return true
+	})
+	rc.Check(through, key+"/one-pointer-level", fd.Pos(), "the kind is taken after looking through one pointer (encoding/json quotes *int, not *struct)")
+	kss := kindSwitches(info, fd)
+	if len(kss) == 0 {
+		rc.Unknown(key+"/kind-switch", fd.Pos(), "kind switch not found")
+		return
+	}
+	ks := kss[len(kss)-1]
+	for _, k := range []string{"Map", "Slice", "Array", "Struct", "Interface", "Ptr"} {
+		cc := ks.clause[k]
+		no := false
+		if cc != nil {
+			for _, st := range cc.Body {
+				if r, ok := st.(*ast.ReturnStmt); ok && len(r.Results) == 1 {
+					if v := core.ConstValue(info, r.Results[0]); v != nil && v.String() == "false" {
+						no = true
+					}
+				}
+			}
+		}
+		rc.Check(no, key+"/kind "+k, fd.Pos(), "fields of kind %s (after one pointer) do not take the ,string option: their value is not expected as a quoted text", k)
+	}
+}
